@@ -227,6 +227,20 @@ pub mod raw {
                 let p = crate::edwards::CompressedEdwardsY(rd::<B32>(a[0])).decompress().expect("replay point decodes");
                 out.push(match name { "grp_is_torsion_free" => super::ffg::vp_grp_is_torsion_free(&p), "grp_into_subgroup_is_some" => super::ffg::vp_grp_into_subgroup_is_some(&p), _ => vp_ed_is_torsion_free(&p) as u8 })
             }
+            #[cfg(all(curve25519_dalek_backend = "simd", curve25519_dalek_bits = "64"))]
+            "vp_v_neg" | "vp_v_reduce" | "vp_v_negate_lazy" | "vp_v_diff_sum" | "vp_v_square_and_negate_d" | "vp_v_mul" | "vp_v_add" | "vp_v_new" => {
+                use crate::backend::vector::avx2::field::FieldElement2625x4 as V4;
+                use super::vfield as vf;
+                #[repr(align(32))] struct Al([u8; 160]);
+                let ld = |b: &[u8]| -> V4 { let mut t = Al([0u8; 160]); t.0.copy_from_slice(b); core::ptr::read(t.0.as_ptr() as *const V4) };
+                let r: V4 = match name {
+                    "vp_v_neg" => vf::vp_v_neg(&ld(a[0])), "vp_v_reduce" => vf::vp_v_reduce(&ld(a[0])), "vp_v_negate_lazy" => vf::vp_v_negate_lazy(&ld(a[0])),
+                    "vp_v_diff_sum" => vf::vp_v_diff_sum(&ld(a[0])), "vp_v_square_and_negate_d" => vf::vp_v_square_and_negate_d(&ld(a[0])),
+                    "vp_v_mul" => vf::vp_v_mul(&ld(a[0]), &ld(a[1])), "vp_v_add" => vf::vp_v_add(&ld(a[0]), &ld(a[1])),
+                    _ => vf::vp_v_new(&rd::<FE>(a[0]), &rd::<FE>(a[1]), &rd::<FE>(a[2]), &rd::<FE>(a[3])),
+                };
+                wr(&r, out)
+            }
             "g_mont_mul" => wr(&vp_g_mont_mul(&MontgomeryPoint(rd::<B32>(a[0])), &scalar_raw(rd::<B32>(a[1]))).0, out),
             "g_mont_mul_clamped" => wr(&vp_g_mont_mul_clamped(&MontgomeryPoint(rd::<B32>(a[0])), &rd::<B32>(a[1])).0, out),
             "g_opt_pippenger" | "g_opt_pippenger_dispatch" | "g_opt_multiscalar" => {
@@ -398,6 +412,27 @@ pub fn scalar_raw(bytes: [u8; 32]) -> crate::scalar::Scalar { crate::scalar::Sca
 /// ed25519-dalek forbids unsafe code, so the helper lives here).  Only instantiated for types for which all-zero bytes are valid.
 #[cfg(kani)]
 pub fn zeroed_plain<T>() -> T { unsafe { core::mem::zeroed() } }
+
+// ------------------------------------------------------------------ AVX2 vector field kernels (C01 / C11 for the vector backend; simd build only)
+#[cfg(all(curve25519_dalek_backend = "simd", curve25519_dalek_bits = "64"))]
+pub mod vfield {
+    use crate::backend::serial::u64::field::FieldElement51 as F51;
+    use crate::backend::vector::avx2::field::{FieldElement2625x4 as V4, Lanes, Shuffle};
+    #[no_mangle] #[inline(never)] pub fn vp_v_new(a: &F51, b: &F51, c: &F51, d: &F51) -> V4 { V4::new(a, b, c, d) }
+    #[no_mangle] #[inline(never)] pub fn vp_v_split(v: &V4) -> [F51; 4] { v.split() }
+    #[no_mangle] #[inline(never)] pub fn vp_v_mul(a: &V4, b: &V4) -> V4 { a * b }
+    #[no_mangle] #[inline(never)] pub fn vp_v_square_and_negate_d(a: &V4) -> V4 { a.square_and_negate_D() }
+    #[no_mangle] #[inline(never)] pub fn vp_v_reduce(a: &V4) -> V4 { a.reduce() }
+    #[no_mangle] #[inline(never)] pub fn vp_v_negate_lazy(a: &V4) -> V4 { a.negate_lazy() }
+    #[no_mangle] #[inline(never)] pub fn vp_v_diff_sum(a: &V4) -> V4 { a.diff_sum() }
+    #[no_mangle] #[inline(never)] pub fn vp_v_add(a: &V4, b: &V4) -> V4 { *a + *b }
+    #[no_mangle] #[inline(never)] pub fn vp_v_neg(a: &V4) -> V4 { -*a }
+    #[no_mangle] #[inline(never)] pub fn vp_v_mul_small(a: &V4, s0: u32, s1: u32, s2: u32, s3: u32) -> V4 { *a * (s0, s1, s2, s3) }
+    #[no_mangle] #[inline(never)] pub fn vp_v_shuffle_badc(a: &V4) -> V4 { a.shuffle(Shuffle::BADC) }
+    #[no_mangle] #[inline(never)] pub fn vp_v_shuffle_abdc(a: &V4) -> V4 { a.shuffle(Shuffle::ABDC) }
+    #[no_mangle] #[inline(never)] pub fn vp_v_blend_ab(a: &V4, b: &V4) -> V4 { a.blend(*b, Lanes::AB) }
+    #[no_mangle] #[inline(never)] pub fn vp_v_blend_d(a: &V4, b: &V4) -> V4 { a.blend(*b, Lanes::D) }
+}
 
 // ------------------------------------------------------------------ Scalar-level glue (C02, layer F for scalars)
 #[no_mangle] #[inline(never)] pub fn vp_sc_add(a: &Scalar, b: &Scalar) -> Scalar { a + b }
